@@ -73,8 +73,7 @@ type lifeCase struct {
 }
 
 func lifeMsg(c *lifeCase, i int) []byte {
-	n := pu.MsgLens[int((c.MsgSeed+uint64(i)*7)%uint64(len(pu.MsgLens)))]
-	return pu.DetBytes(c.MsgSeed*1000003+uint64(i)+1, n)
+	return pu.DetBytes(c.MsgSeed*1000003+uint64(i)+1, pu.LifeMsgLen(c.MsgSeed, i))
 }
 
 // runLife returns "" when everything matches, otherwise (key, message).
@@ -100,10 +99,15 @@ func runLife(r *ev.Recorder, c *lifeCase) (string, string) {
 	if a, ra := x.GetAddress(), codecref.XMSSAddress(refPK); a != ra {
 		return "address/mismatch", fmt.Sprintf("GetAddress=%x reference=%x", a, ra)
 	}
+	var held, heldCopy []byte // a signature the caller still holds must not change when the key signs again
 	for i := 0; i < 1<<uint(c.H); i++ {
 		msg := lifeMsg(c, i)
 		var sig []byte
 		var err error
+		if held != nil && !bytes.Equal(held, heldCopy) {
+			c.FailIdx = i - 1
+			return "signature/changes-after-later-sign", fmt.Sprintf("hash=%s h=%d: the signature returned at index %d was modified by a later Sign call (first changed byte %d)", pu.HashName(hf), c.H, i-2, firstDiff(held, heldCopy))
+		}
 		if o := ev.Try(func() { sig, err = x.Sign(msg) }); o.Panicked {
 			c.FailIdx = i
 			return "sign/panic", fmt.Sprintf("Sign at index %d: %s", i, o)
@@ -120,6 +124,9 @@ func runLife(r *ev.Recorder, c *lifeCase) (string, string) {
 				pu.HashName(hf), c.H, i, firstDiff(sig, want), len(sig), len(want))
 		}
 		r.NonTrivial("life", c.Hash, c.H, []byte(c.Seed), i, msg)
+		if i%3 == 0 {
+			held, heldCopy = sig, append([]byte{}, sig...)
+		}
 		// Verify == VerifyWithCustomWOTSParamW(16) on the valid signature and on a damaged one
 		v1 := xmss.Verify(msg, sig, pk)
 		v2 := xmss.VerifyWithCustomWOTSParamW(msg, sig, pk, 16)
@@ -220,13 +227,31 @@ func init() {
 type histOp struct {
 	Jump uint32 `json:"jump"` // SetIndex(cur+Jump) before signing (0 = no SetIndex call)
 	Msg  pu.HB  `json:"msg"`
+	// W != 0: before this step some OTHER caller verifies a (garbage, well-formed-length) signature for this
+	// key's height with Winternitz parameter W; keys and signatures must not depend on such earlier calls
+	W uint32 `json:"foreign_verify_w,omitempty"`
 }
+
+// PreW in histCase: the same kind of foreign call made BEFORE the key object is created.
 
 type histCase struct {
 	Hash uint     `json:"hash"`
 	H    int      `json:"h"`
 	Seed pu.HB    `json:"seed"`
+	PreW uint32   `json:"foreign_verify_w_before_keygen,omitempty"`
 	Ops  []histOp `json:"ops"`
+}
+
+// foreignVerify makes a verification call with another Winternitz parameter and a signature length that is
+// well-formed for that parameter and for height h (content garbage); its own answer is irrelevant here.
+func foreignVerify(w uint32, h int, hf xmss.HashFunction) {
+	base := map[uint32]int{4: 4 + 32 + 133*32, 16: 2180, 256: 4 + 32 + 34*32}[w]
+	if base == 0 {
+		return
+	}
+	var pk [67]byte
+	pk[0], pk[1] = byte(hf), byte(h/2)
+	ev.Try(func() { xmss.VerifyWithCustomWOTSParamW([]byte("foreign"), make([]byte, base+32*h), pk, w) })
 }
 
 var refCache = map[string]*xmssref.Key{}
@@ -246,13 +271,22 @@ func refKey(seed []byte, h int, hf xmss.HashFunction) *xmssref.Key {
 
 func runHist(r *ev.Recorder, c *histCase, _ any) (string, string) {
 	hf := xmss.HashFunction(c.Hash)
+	if c.PreW != 0 {
+		foreignVerify(c.PreW, c.H, hf)
+	}
 	x := pu.NewXMSS(c.Seed, c.H, hf)
 	ref := refKey(c.Seed, c.H, hf)
+	if pk := x.GetPK(); !bytes.Equal(pk[:], pu.RefPK(ref, hf)) {
+		return "pk/mismatch-after-history", fmt.Sprintf("hash=%s h=%d: public key differs from the reference (a verification with w=%d ran just before key generation)", pu.HashName(hf), c.H, c.PreW)
+	}
 	cur := uint32(0)
 	last := uint32(1)<<uint(c.H) - 1
 	for n, op := range c.Ops {
 		if cur > last {
 			break
+		}
+		if op.W != 0 {
+			foreignVerify(op.W, c.H, hf)
 		}
 		target := cur + op.Jump
 		if target > last {
@@ -353,7 +387,7 @@ func TestTallKey(t *testing.T) {
 
 func TestHistoryIndependence(t *testing.T) {
 	r := ev.New(t, prop, "TestHistoryIndependence")
-	r.Rule("rapid histories on a fresh library key (3 hashes, h in {4,6}; seeds from a small per-run pool so reference trees are reused): each step optionally jumps forward with SetIndex then signs; every signature must equal xmssref.Sign(index,msg); non-trivial = a signature produced right after a forward jump, distinct by (hash,h,seed,index,jump history)")
+	r.Rule("rapid histories on a fresh library key (3 hashes, h in {4,6}; seeds from a small per-run pool so reference trees are reused): each step optionally jumps forward with SetIndex then signs; verifications with another Winternitz parameter (w=4/256, same height, garbage signature) are interleaved before key generation and between steps; every signature must equal xmssref.Sign(index,msg); non-trivial = a signature produced right after a forward jump, distinct by (hash,h,seed,index,jump history)")
 	// seed pool: derived from the run seed; index 0 is the all-zero seed
 	pool := [][]byte{make([]byte, 48), pu.DetBytes(r.SubSeed("pool-1"), 48), pu.DetBytes(r.SubSeed("pool-2"), 48)}
 	checks := r.PerShard(r.Pick(160, 2400))
@@ -362,6 +396,9 @@ func TestHistoryIndependence(t *testing.T) {
 			Hash: uint(rapid.SampledFrom(pu.Hashes).Draw(rt, "hash")),
 			H:    rapid.SampledFrom([]int{4, 4, 6}).Draw(rt, "h"),
 			Seed: rapid.SampledFrom(pool).Draw(rt, "seed"),
+		}
+		if rapid.IntRange(0, 2).Draw(rt, "preW") == 0 {
+			c.PreW = rapid.SampledFrom([]uint32{4, 256, 16}).Draw(rt, "preWv")
 		}
 		nops := rapid.IntRange(1, 8).Draw(rt, "nops")
 		for i := 0; i < nops; i++ {
@@ -377,10 +414,15 @@ func TestHistoryIndependence(t *testing.T) {
 			default:
 				j = uint32(rapid.IntRange(1, 1<<uint(c.H)).Draw(rt, "jump"))
 			}
-			c.Ops = append(c.Ops, histOp{Jump: j, Msg: pu.Msg(200).Draw(rt, "msg")})
+			o := histOp{Jump: j, Msg: pu.Msg(200).Draw(rt, "msg")}
+			if rapid.IntRange(0, 5).Draw(rt, "foreign") == 0 {
+				o.W = rapid.SampledFrom([]uint32{4, 256}).Draw(rt, "w")
+				r.Count("steps_preceded_by_foreign_w_verification", 1)
+			}
+			c.Ops = append(c.Ops, o)
 		}
 		key, msg := runHist(r, c, nil)
-		r.Sample(map[string]any{"hash": c.Hash, "h": c.H, "jumps": jumps(c.Ops)})
+		r.Sample(map[string]any{"hash": c.Hash, "h": c.H, "jumps": jumps(c.Ops), "foreign_w_before_keygen": c.PreW})
 		r.Check(rt, key == "", key, c, "%s", msg)
 	})
 }
